@@ -239,6 +239,68 @@ func runXor(tier string, shard, shards int, rep *SeqReport) {
 			rep.States += cnt
 			rep.family("large "+im.name, cnt)
 		}
+		// all operands inside ONE buffer: dst is exactly one operand, the other operand is the block directly
+		// before / after it (touching, or 1 or 8 bytes apart); also dst as the adjacent block of both inputs
+		unit++
+		if (unit-1)%shards == shard {
+			var cnt int64
+			for _, n := range []int{1, 2, 7, 8, 9, 16, 17, 31, 32, 33, 64, 65, 100, 128, 255} {
+				for _, gap := range []int{0, 1, 8} {
+					for layout := 0; layout < 6; layout++ {
+						for _, base := range []int{8, 11} {
+							buf := make([]byte, base+3*n+2*gap+24)
+							for i := range buf {
+								buf[i] = byte(i*11 + 3)
+							}
+							orig := append([]byte(nil), buf...)
+							p0, p1, p2 := base, base+n+gap, base+2*n+2*gap
+							blk := func(p int) []byte { return buf[p : p+n : p+n] }
+							var dst, a, b []byte
+							var dp, ap, bp int
+							switch layout {
+							case 0: // dst==a, b right after
+								dp, ap, bp = p0, p0, p1
+							case 1: // dst==a, b right before
+								dp, ap, bp = p1, p1, p0
+							case 2: // dst==b, a right after
+								dp, ap, bp = p0, p1, p0
+							case 3: // dst==b, a right before
+								dp, ap, bp = p1, p0, p1
+							case 4: // a, dst, b in a row
+								dp, ap, bp = p1, p0, p2
+							case 5: // dst, a, b in a row
+								dp, ap, bp = p0, p1, p2
+							}
+							dst, a, b = blk(dp), blk(ap), blk(bp)
+							r := im.f(dst, a, b)
+							cnt++
+							bad := ""
+							if r != n {
+								bad = fmt.Sprintf("returned %d, want %d", r, n)
+							}
+							for i := range buf {
+								want := orig[i]
+								if i >= dp && i < dp+n {
+									want = orig[ap+i-dp] ^ orig[bp+i-dp]
+								}
+								if buf[i] != want && bad == "" {
+									bad = fmt.Sprintf("byte %d of the shared buffer (dst starts at %d) is %#x, want %#x", i, dp, buf[i], want)
+								}
+							}
+							if bad != "" {
+								rep.violate("xor adjacent "+im.name, "C20 wrong-result "+im.name,
+									fmt.Sprintf("%s XorBytes: %s", im.name, bad),
+									fmt.Sprintf("one buffer: n=%d gap=%d dst@%d a@%d b@%d", n, gap, dp, ap, bp))
+							}
+						}
+					}
+				}
+			}
+			rep.Evaluations += cnt
+			rep.Transitions += cnt
+			rep.States += cnt
+			rep.family("adjacent "+im.name, cnt)
+		}
 		// all byte values for n <= 2
 		unit++
 		if (unit-1)%shards == shard {
@@ -277,7 +339,7 @@ func runXor(tier string, shard, shards int, rep *SeqReport) {
 
 func init() {
 	register(&Check{ID: "C20", Seq: runXor,
-		Rule: "full enumeration: len(a), len(b) in 0..72 (thorough 0..136) independently x start offsets mod 8 of a, b, dst (quick {0,1,3,7}, thorough 0..7) x aliasing {none, dst==a, dst==b} x dst exactly n or n+3 long x 3 content patterns, plus all 256x256 byte values for n<=2, plus large operands (lengths p-1, p, p+1, 1.5p for every power of two p = 256..65536, equal and unequal, both aliasings, two alignments, two content patterns); on the implementation this toolchain builds (xor_generic.go) and on xor_old.go compiled with its build constraint lifted; every byte of the three guarded arenas is compared",
+		Rule: "full enumeration: len(a), len(b) in 0..72 (thorough 0..136) independently x start offsets mod 8 of a, b, dst (quick {0,1,3,7}, thorough 0..7) x aliasing {none, dst==a, dst==b} x dst exactly n or n+3 long x 3 content patterns, plus all 256x256 byte values for n<=2, plus operands that are adjacent blocks of one buffer (dst identical to one input, the other input touching it or 1/8 bytes away), plus large operands (lengths p-1, p, p+1, 1.5p for every power of two p = 256..65536, equal and unequal, both aliasings, two alignments, two content patterns); on the implementation this toolchain builds (xor_generic.go) and on xor_old.go compiled with its build constraint lifted; every byte of the three guarded arenas is compared",
 		Assumptions: []string{"xor_arm.go/.s cannot execute on amd64 and no emulator is installed: the ARM assembly is not covered",
 			"contents come from 6 patterns incl. zero and all-ones words (XOR is bitwise-independent) plus all byte pairs for n<=2"}})
 }
